@@ -332,7 +332,9 @@ func c09Judge(c *core.Ctx, k c09case, res *core.ShardResult) (vs []core.Violatio
 	}
 	started2, _ := k.logStatus(log2)
 	// a program that cannot be started is an error of the runner, not a failing command: spok stops the
-	// whole invocation there, so the tasks after it are not reached (in the second run as in the first)
+	// whole invocation there, so the tasks after it are not reached - and independent tasks run in no fixed
+	// order, so which ones those are differs from run to run: with such a command in the closure the second
+	// run is only required to fail
 	stopsRun := false
 	for _, t := range k.Tasks {
 		for _, cmd := range t.Cmds {
@@ -350,7 +352,7 @@ func c09Judge(c *core.Ctx, k c09case, res *core.ShardResult) (vs []core.Violatio
 			return
 		}
 	}
-	if again == 0 {
+	if again == 0 && !stopsRun {
 		bad("failed-task-not-up-to-date", "none of the tasks that failed in the first run (%v, flags %v) was run again by the second (exit %d, log %v, stderr %s)", failed, k.Flags, inv2.Exit, log2, core.Trunc(inv2.Stderr, 200))
 		return
 	}
